@@ -124,10 +124,18 @@ func runOracle(input bufimage.Image, f filterSpec) *verdict {
 		}
 	}
 
+	// reference closure; with a documented conflict it is only used to recognise namespace-only messages
+	cl := u.closure(f, x)
+
 	// (1) no failure on existing, disjoint, conflict-free names
 	if ferr != nil {
 		if len(conflicts) > 0 {
 			v.class("conflict-error")
+			return v
+		}
+		if len(cl.need) == 0 {
+			// nothing survives the filter: reporting that instead of returning an empty image is acceptable
+			v.class("nothing-left-error")
 			return v
 		}
 		return fail(v, "filter-error:"+f.mode(), "FilterImage(include=%v exclude=%v) failed although every name exists, include and exclude are disjoint and no included element requires an excluded one: %v", f.Include, f.Exclude, ferr)
@@ -140,8 +148,6 @@ func runOracle(input bufimage.Image, f filterSpec) *verdict {
 	}
 	out := bufimage.ImageToFileDescriptorSet(result)
 
-	// reference closure; with a documented conflict it is only used to recognise namespace-only messages
-	cl := u.closure(f, x)
 	// rootCause refines a linking failure: an element of an import file that nothing needs was kept
 	rootCause := func(from string) string {
 		owner := from
